@@ -96,7 +96,22 @@ inline size_t ctl_dangling(const Spline<D, 1> &a) {
   return sup.size();
 }
 
+// R-LIFE.inval: reference into a vector that is grown while the reference is still used
+inline std::vector<D> ctl_invalidated(const support::Support<D> &s) {
+  std::vector<D> ret{s.front()};
+  const D &last = ret.back();
+  for (size_t i = 0; i < 10; i++) ret.push_back(last);
+  return ret;
+}
+// R-EFF.frozen: const static initialised from an argument
+inline size_t ctl_frozen(const support::Support<D> &s) {
+  static const size_t cached = s.size();
+  return cached;
+}
+
 inline void instantiate() {
+  (void)ctl_invalidated(Spline<D, 1>{support::Grid<D>{0.0, 1.0}}.getSupport());
+  (void)ctl_frozen(Spline<D, 1>{support::Grid<D>{0.0, 1.0}}.getSupport());
   Spline<D, 1> a{support::Grid<D>{0.0, 1.0}};
   Spline<D, 2> b{a.getSupport().getGrid()};
   (void)ctl_unguarded(a, b);
